@@ -566,7 +566,7 @@ impl Property for C25 {
             .boxed()
     }
     fn budget(&self, tier: Tier) -> Budget {
-        Budget::new(tier.pick(400, 20_000), tier.pick(8, 16)).min_nontrivial(tier.pick(80, 4_000)).case_timeout(180)
+        Budget::new(tier.pick(280, 20_000), tier.pick(8, 16)).min_nontrivial(tier.pick(100, 6_000)).case_timeout(180)
     }
     fn rule(&self) -> String {
         "2-6 typed columns x 0-60 rows (NULLs, awkward strings), written by COPY table/query, INSERT INTO a listing table or DataFrame::write_* as Parquet/CSV/NDJSON/Arrow with every compression, \
